@@ -114,10 +114,10 @@ def random_wellformed(rng: random.Random) -> tuple[int, int, int, int, int]:
 
 # per-field representative alphabet for the C02 recognizer sweep
 FIELD_ALPHABET = {
-    "node": ["0", "1", "255", "256", "-1", "", "x", " 1", "01", "1.0"],
-    "child": ["0", "7", "255", "256", "-1", "", "x", "+1", "1_0", "٣"],
-    "cmd": ["0", "1", "2", "3", "4", "5", "-1", "", "x", "1 "],
-    "ack": ["0", "1", "2", "-1", "", "x", "01", "True", "1e0"],
+    "node": ["0", "1", "255", "256", "-1", "", "x", " 1", "01", "1.0", "0255", "+0"],
+    "child": ["0", "7", "255", "256", "-1", "", "x", "+1", "1_0", "٣", "0255", "+255", " 255", "25_5", "-0"],
+    "cmd": ["0", "1", "2", "3", "4", "5", "-1", "", "x", "1 ", "03", "+4", "02", " 1"],
+    "ack": ["0", "1", "2", "-1", "", "x", "01", "True", "1e0", "+1", "00"],
     "type": ["0", "3", "4", "6", "49", "-5", "99999999999999999999", "", "x", "0x1", "+3", "1.0", "٤"],
 }
 NONPLAIN_TAILS = ["", "\n", "\r\n", " ", "  \n", "\t\n"]
